@@ -295,6 +295,26 @@ func TestVerifSQLSafeBounded(t *testing.T) {
 			}
 		}
 	}
+	// a source name is spliced into "set application_name" and the notification
+	// channel by the tasks of every integration that runs on the source,
+	// including integrations stored in the database: the file path must reject a
+	// hostile source name whether or not the file itself declares integrations
+	for _, h := range hostile {
+		for _, withIGs := range []bool{false, true} {
+			c := config.Root{}
+			if withIGs {
+				c = clone(base)
+			}
+			c.Sources = append(c.Sources, config.Source{Name: h, ChainID: 1, URLs: []string{"http://127.0.0.1:1"}})
+			cases++
+			if err := config.ValidateFix(&c); err == nil {
+				fails++
+				if fails <= 12 {
+					fmt.Printf("BOUNDED-FAIL a file (integrations declared: %v) with the source name %q is accepted; the name reaches set application_name / pg_notify text of every task on that source\n", withIGs, h)
+				}
+			}
+		}
+	}
 	fmt.Printf("BOUNDED cases=%d failures=%d exhaustive=true\n", cases, fails)
 	if fails > 0 {
 		t.Fail()
